@@ -3,6 +3,7 @@ From Coq Require Import List NArith ZArith Bool Arith Lia.
 Import ListNotations.
 From Stam Require Import Base.Tac Base.Sx Model.Offset Model.Store Model.Loader Model.Csv Spec.CsvSpec
   Proofs.Loader.
+From Stam Require Spec.OffsetSpec Proofs.Offset.
 
 (** * join and split on ';' *)
 
@@ -39,3 +40,789 @@ Qed.
 Lemma join_semi_length_split own l : (forall x, In x (own :: l) -> has_semi x = false) ->
   split (own ++ push_all l) = own :: l.
 Proof. intro H. rewrite push_all_join. apply split_join; [exact H|discriminate]. Qed.
+
+(** * The decoder: the data columns and the target columns are read independently *)
+
+Definition norm (r : csvrow) : csvrow :=
+  {| c_id := c_id r; c_data := [120%N]; c_set := [121%N]; c_kind := c_kind r; c_res := c_res r;
+     c_ann := c_ann r; c_dset := c_dset r; c_begin := c_begin r; c_end := c_end r; c_key := c_key r;
+     c_tdata := c_tdata r |}.
+
+(* the (set, data) pairs of a row: sets by position, the last one for the positions beyond *)
+Definition data_of (r : csvrow) : list (str * str) :=
+  if is_empty (c_data r) then []
+  else map (fun p => (match get_or_last (split (c_set r)) (fst p) with Some s => s | None => [] end, snd p))
+           (enumerate_from 0 (split (c_data r))).
+
+Definition with_pairs (b : Loader.abuild) (d : list (str * str)) : Loader.abuild :=
+  {| Loader.ab_id := Loader.ab_id b; Loader.ab_data := d; Loader.ab_target := Loader.ab_target b |}.
+
+Lemma csv_row_indep r1 r2 :
+  c_id r1 = c_id r2 -> c_kind r1 = c_kind r2 -> c_res r1 = c_res r2 -> c_ann r1 = c_ann r2 ->
+  c_dset r1 = c_dset r2 -> c_begin r1 = c_begin r2 -> c_end r1 = c_end r2 -> c_key r1 = c_key r2 ->
+  c_tdata r1 = c_tdata r2 ->
+  csv_row false r1 = bind (csv_row false r2) (fun b => Ok (with_pairs b (data_of r1))).
+Proof.
+  intros E1 E2 E3 E4 E5 E6 E7 E8 E9.
+  unfold csv_row, data_of. cbn [andb]. rewrite <- E1, <- E2, <- E3, <- E4, <- E5, <- E6, <- E7, <- E8, <- E9.
+  destruct (kinds_of (split (c_kind r1))) as [kinds| | | |]; cbn [bind]; try reflexivity.
+  destruct kinds as [|k0 krest]; cbn [bind]; try reflexivity.
+  destruct (kind_is_complex k0 && is_empty_list krest); cbn [bind]; try reflexivity.
+  match goal with |- bind ?T _ = _ => destruct T end; reflexivity.
+Qed.
+
+Lemma csv_row_now_norm r :
+  csv_row_now r = bind (csv_row false (norm r)) (fun b => Ok (with_pairs b (data_of r))).
+Proof. unfold csv_row_now. apply csv_row_indep; reflexivity. Qed.
+
+(** * The data columns *)
+
+Lemma join_semi_snoc p x : p <> [] -> join_semi (p ++ [x]) = join_semi p ++ 59%N :: x.
+Proof.
+  induction p as [|y p IH]; intro H; [contradiction|].
+  destruct p as [|z p]; [reflexivity|].
+  change (join_semi ((y :: z :: p) ++ [x])) with (y ++ 59%N :: join_semi ((z :: p) ++ [x])).
+  rewrite IH by discriminate.
+  change (join_semi (y :: z :: p)) with (y ++ 59%N :: join_semi (z :: p)).
+  rewrite <- app_assoc. reflexivity.
+Qed.
+
+Definition pairs_wf (ds : list (str * str)) : Prop :=
+  forall p, In p ds -> has_semi (fst p) = false /\ has_semi (snd p) = false /\ snd p <> [].
+
+Lemma join_semi_nonempty l : l <> [] -> (forall x, In x l -> x <> []) -> join_semi l <> [].
+Proof.
+  destruct l as [|x l]; intros H Hx; [contradiction|].
+  assert (x <> []) as Hne by (apply Hx; left; reflexivity).
+  destruct l as [|y l]; [exact Hne|].
+  change (join_semi (x :: y :: l)) with (x ++ 59%N :: join_semi (y :: l)).
+  destruct x; [contradiction|discriminate].
+Qed.
+
+Lemma data_columns_fold l : forall p, (forall q, In q (p ++ l) -> snd q <> []) ->
+  fold_left (fun acc q => let '(dcol, scol) := acc in
+                          if is_empty dcol then (dcol ++ snd q, scol ++ fst q)
+                          else (dcol ++ 59%N :: snd q, scol ++ 59%N :: fst q)) l
+            (join_semi (map snd p), join_semi (map fst p))
+  = (join_semi (map snd (p ++ l)), join_semi (map fst (p ++ l))).
+Proof.
+  induction l as [|q l IH]; intros p Hne.
+  - rewrite app_nil_r. reflexivity.
+  - cbn [fold_left].
+    assert (forall q', In q' ((p ++ [q]) ++ l) -> snd q' <> []) as Hne'.
+    { intros q' Hq'. apply Hne. rewrite <- app_assoc in Hq'. exact Hq'. }
+    destruct p as [|p0 p].
+    + cbn [map join_semi is_empty app]. apply (IH [q]). exact Hne'.
+    + assert (is_empty (join_semi (map snd (p0 :: p))) = false) as E.
+      { assert (join_semi (map snd (p0 :: p)) <> []) as H.
+        { apply join_semi_nonempty; [discriminate|].
+          intros x Hx. apply in_map_iff in Hx. destruct Hx as (q' & <- & Hq'). apply Hne.
+          apply in_or_app. left. exact Hq'. }
+        destruct (join_semi (map snd (p0 :: p))); [contradiction|reflexivity]. }
+      rewrite E.
+      rewrite <- !join_semi_snoc by discriminate.
+      change [snd q] with (map snd [q]). change [fst q] with (map fst [q]). rewrite <- !map_app.
+      rewrite IH by exact Hne'.
+      rewrite <- app_assoc. reflexivity.
+Qed.
+
+(* the two data columns are the joins of the data ids and of the set ids *)
+Lemma data_columns_join ds : (forall q, In q ds -> snd q <> []) ->
+  data_columns ds = (join_semi (map snd ds), join_semi (map fst ds)).
+Proof.
+  intro H. destruct ds as [|[s1 d1] ds]; [reflexivity|].
+  destruct ds as [|q2 ds]; [reflexivity|].
+  unfold data_columns. apply (data_columns_fold _ []). exact H.
+Qed.
+
+Lemma get_or_last_nth {A} (l : list A) i x : nth_error l i = Some x -> get_or_last l i = Some x.
+Proof.
+  intro H. unfold get_or_last.
+  destruct (last_opt_some l) as [la E]; [destruct l; [destruct i; discriminate|discriminate]|].
+  rewrite E, H. reflexivity.
+Qed.
+
+Lemma data_pairs_back (ds : list (str * str)) : forall pre : list str,
+  map (fun p => (match get_or_last (pre ++ map fst ds) (fst p) with Some s => s | None => [] end, snd p))
+      (enumerate_from (length pre) (map snd ds)) = ds.
+Proof.
+  induction ds as [|[s d] ds IH]; intro pre; [reflexivity|].
+  cbn [map enumerate_from fst snd]. f_equal.
+  - rewrite (get_or_last_nth _ _ s); [reflexivity|].
+    rewrite nth_error_app2 by lia. rewrite Nat.sub_diag. reflexivity.
+  - specialize (IH (pre ++ [s])). rewrite <- app_assoc in IH. cbn [app] in IH.
+    rewrite app_length in IH. cbn [length] in IH. rewrite Nat.add_1_r in IH. exact IH.
+Qed.
+
+(* the decoder reads the pairs back *)
+Lemma data_of_columns r ds : pairs_wf ds ->
+  c_data r = fst (data_columns ds) -> c_set r = snd (data_columns ds) -> data_of r = ds.
+Proof.
+  intros Hwf Hd Hs. rewrite data_columns_join in Hd, Hs by (intros q Hq; apply Hwf; exact Hq).
+  cbn [fst snd] in Hd, Hs. unfold data_of. rewrite Hd, Hs.
+  destruct ds as [|q ds]; [reflexivity|].
+  assert (join_semi (map snd (q :: ds)) <> []) as Hne.
+  { apply join_semi_nonempty; [discriminate|]. intros x Hx. apply in_map_iff in Hx.
+    destruct Hx as (q' & <- & Hq'). apply Hwf. exact Hq'. }
+  assert (is_empty (join_semi (map snd (q :: ds))) = false) as E
+    by (destruct (join_semi (map snd (q :: ds))); [contradiction|reflexivity]).
+  match goal with |- (if ?c then _ else _) = _ => replace c with false by (symmetry; exact E) end.
+  rewrite !split_join.
+  - apply (data_pairs_back (q :: ds) []).
+  - intros x Hx. apply in_map_iff in Hx. destruct Hx as (q' & <- & Hq'). apply Hwf. exact Hq'.
+  - discriminate.
+  - intros x Hx. apply in_map_iff in Hx. destruct Hx as (q' & <- & Hq'). apply Hwf. exact Hq'.
+  - discriminate.
+Qed.
+
+(** * The target columns *)
+
+Lemma kind_str_eq k : kind_str k = str_of_kind k.
+Proof. destruct k; reflexivity. Qed.
+
+Lemma kind_str_nosemi k : has_semi (kind_str k) = false.
+Proof. destruct k; reflexivity. Qed.
+
+(* every kind the writer emits is accepted by the reader *)
+Lemma kind_str_roundtrip k : kind_of_str (kind_str k) = Ok k.
+Proof. rewrite kind_str_eq. apply kind_roundtrip. Qed.
+
+Lemma kinds_of_map l : kinds_of (map kind_str l) = Ok l.
+Proof.
+  induction l as [|k l IH]; [reflexivity|].
+  cbn [map kinds_of]. rewrite kind_str_roundtrip. cbn [bind]. rewrite IH. reflexivity.
+Qed.
+
+(* the columns of one simple selector *)
+Definition member_of (b : Loader.sbuild) : member :=
+  match b with
+  | BText r cb ce => {| m_kind := KText; m_res := r; m_ann := []; m_dset := []; m_begin := str_of_cursor cb;
+                        m_end := str_of_cursor ce; m_key := []; m_tdata := [] |}
+  | BAnn a None => {| m_kind := KAnnotation; m_res := []; m_ann := a; m_dset := []; m_begin := []; m_end := [];
+                      m_key := []; m_tdata := [] |}
+  | BAnn a (Some (cb, ce)) => {| m_kind := KAnnotation; m_res := []; m_ann := a; m_dset := [];
+                                 m_begin := str_of_cursor cb; m_end := str_of_cursor ce; m_key := []; m_tdata := [] |}
+  | BRes r => {| m_kind := KResource; m_res := r; m_ann := []; m_dset := []; m_begin := []; m_end := [];
+                 m_key := []; m_tdata := [] |}
+  | BSet s => {| m_kind := KDataSet; m_res := []; m_ann := []; m_dset := s; m_begin := []; m_end := [];
+                 m_key := []; m_tdata := [] |}
+  | BKey s k => {| m_kind := KDataKey; m_res := []; m_ann := []; m_dset := s; m_begin := []; m_end := [];
+                   m_key := k; m_tdata := [] |}
+  | BDat s d => {| m_kind := KData; m_res := []; m_ann := []; m_dset := s; m_begin := []; m_end := [];
+                   m_key := []; m_tdata := d |}
+  | BComplex _ _ => {| m_kind := KMulti; m_res := []; m_ann := []; m_dset := []; m_begin := []; m_end := [];
+                       m_key := []; m_tdata := [] |}
+  end.
+
+(* a sub-selector of a complex selector must name its item (the reader refuses an empty slot) *)
+Definition sub_wf (b : Loader.sbuild) : Prop :=
+  simple_wf b /\
+  match b with
+  | BText r _ _ | BRes r => r <> []
+  | BAnn a _ => a <> []
+  | BSet s | BKey s _ | BDat s _ => s <> []
+  | BComplex _ _ => False
+  end.
+
+Lemma member_of_nosemi b : simple_wf b ->
+  has_semi (m_res (member_of b)) = false /\ has_semi (m_ann (member_of b)) = false /\
+  has_semi (m_dset (member_of b)) = false /\ has_semi (m_begin (member_of b)) = false /\
+  has_semi (m_end (member_of b)) = false /\ has_semi (m_key (member_of b)) = false /\
+  has_semi (m_tdata (member_of b)) = false.
+Proof.
+  destruct b as [r cb ce|a [[cb ce]|]|r|s|s k|s d|k l]; cbn [simple_wf member_of m_res m_ann m_dset m_begin m_end m_key m_tdata];
+    unfold nosemi; intro H; repeat split; try reflexivity; try apply str_of_cursor_nosemi; tauto.
+Qed.
+
+Lemma nth_error_cons_map {A B} (f : A -> B) (x : B) (l : list A) j a :
+  nth_error l j = Some a -> nth_error (x :: map f l) (S j) = Some (f a).
+Proof. intro H. cbn [nth_error]. apply map_nth_error. exact H. Qed.
+
+Section Complex.
+  Variable ck : skind.
+  Variable bs : list Loader.sbuild.
+  Let ms := map member_of bs.
+  Let kinds := ck :: map m_kind ms.
+  Let col (f : member -> str) : list str := [] :: map f ms.
+
+  Lemma csv_sub_at j b : nth_error bs j = Some b -> sub_wf b ->
+    csv_sub false kinds (col m_res) (col m_dset) (col m_ann) (col m_key) (col m_tdata) (col m_begin) (col m_end) (S j)
+    = Ok b.
+  Proof.
+    intros Hj [Hwf Hne].
+    assert (forall f, nth_error (col f) (S j) = Some (f (member_of b))) as Hcol.
+    { intro f. unfold col, ms. rewrite map_map.
+      apply (nth_error_cons_map (fun x => f (member_of x))). exact Hj. }
+    assert (get_or_last kinds (S j) = Some (m_kind (member_of b))) as Hk.
+    { apply get_or_last_nth. unfold kinds, ms. rewrite map_map.
+      apply (nth_error_cons_map (fun x => m_kind (member_of x))). exact Hj. }
+    unfold csv_sub. rewrite Hk.
+    destruct b as [r cb ce|a [[cb ce]|]|r|s|s k|s d|k l]; cbn [sub_wf simple_wf] in *; try contradiction;
+      cbn [member_of m_kind].
+    - rewrite (get_or_last_nth _ _ _ (Hcol m_res)). cbn [member_of m_res].
+      destruct r; [contradiction|]. cbn [is_empty].
+      rewrite (Hcol m_begin), (Hcol m_end). cbn [member_of m_begin m_end].
+      destruct Hwf as (_ & Hb & He). rewrite cursor_pair_roundtrip by assumption. reflexivity.
+    - rewrite (get_or_last_nth _ _ _ (Hcol m_ann)). cbn [member_of m_ann].
+      destruct a; [contradiction|]. cbn [is_empty].
+      rewrite (Hcol m_begin), (Hcol m_end). cbn [member_of m_begin m_end].
+      rewrite !str_of_cursor_nonempty. cbn [negb andb].
+      destruct Hwf as (_ & Hb & He). rewrite cursor_pair_roundtrip by assumption. reflexivity.
+    - rewrite (get_or_last_nth _ _ _ (Hcol m_ann)). cbn [member_of m_ann].
+      destruct a; [contradiction|]. cbn [is_empty].
+      rewrite (Hcol m_begin). cbn [member_of m_begin is_empty]. reflexivity.
+    - rewrite (get_or_last_nth _ _ _ (Hcol m_res)). cbn [member_of m_res].
+      destruct r; [contradiction|]. reflexivity.
+    - rewrite (get_or_last_nth _ _ _ (Hcol m_dset)). cbn [member_of m_dset].
+      destruct s; [contradiction|]. reflexivity.
+    - rewrite (get_or_last_nth _ _ _ (Hcol m_dset)), (get_or_last_nth _ _ _ (Hcol m_key)). cbn [member_of m_dset m_key].
+      destruct s; [contradiction|]. reflexivity.
+    - rewrite (get_or_last_nth _ _ _ (Hcol m_dset)), (get_or_last_nth _ _ _ (Hcol m_tdata)). cbn [member_of m_dset m_tdata].
+      destruct s; [contradiction|]. reflexivity.
+  Qed.
+End Complex.
+
+Lemma csv_subs_seq kinds ress dsets anns keys tdatas begins ends (bs : list Loader.sbuild) : forall pre,
+  (forall j b, nth_error bs j = Some b ->
+     csv_sub false kinds ress dsets anns keys tdatas begins ends (S (pre + j)) = Ok b) ->
+  csv_subs false kinds ress dsets anns keys tdatas begins ends (seq (S pre) (length bs)) = Ok bs.
+Proof.
+  induction bs as [|b bs IH]; intros pre H; [reflexivity|].
+  cbn [length seq csv_subs].
+  rewrite <- (Nat.add_0_r pre) at 1. rewrite (H 0 b eq_refl). cbn [bind].
+  rewrite (IH (S pre)); [reflexivity|].
+  intros j b' Hj. rewrite <- (H (S j) b' Hj). f_equal. lia.
+Qed.
+
+Lemma max_len_same (ls : list (list str)) n : (forall l, In l ls -> length l = n) -> max_len ls n = n.
+Proof.
+  unfold max_len. induction ls as [|l ls IH]; intro H; [reflexivity|].
+  cbn [fold_left]. rewrite (H l (or_introl eq_refl)). rewrite Nat.ltb_irrefl.
+  apply IH. intros l' Hl'. apply H. right. exact Hl'.
+Qed.
+
+Lemma push_all_opt l : l <> [] -> opt (push_all l) = Some (push_all l).
+Proof. destruct l as [|x l]; [contradiction|reflexivity]. Qed.
+
+Lemma split_push_all (f : member -> str) (ms : list member) :
+  (forall m, In m ms -> has_semi (f m) = false) -> split (push_all (map f ms)) = [] :: map f ms.
+Proof.
+  intro H. apply (join_semi_length_split [] (map f ms)).
+  intros x [<-|Hx]; [reflexivity|]. apply in_map_iff in Hx. destruct Hx as (m & <- & Hm). apply H. exact Hm.
+Qed.
+
+(* a complex selector with any number of sub-selectors of any mix of kinds is read back *)
+Lemma complex_target_roundtrip idcol dc k bs r : k <> 0 -> bs <> [] -> Forall sub_wf bs ->
+  assemble idcol dc k (map member_of bs) = Some r ->
+  exists d, csv_row false (norm r)
+            = Ok {| Loader.ab_id := opt idcol; Loader.ab_data := d;
+                    Loader.ab_target := Some (BComplex (complex_kind k) bs) |}.
+Proof.
+  intros Hk Hbs Hwf Hr.
+  assert (forall m, In m (map member_of bs) -> exists b, m = member_of b /\ simple_wf b) as Hms.
+  { intros m Hm. apply in_map_iff in Hm. destruct Hm as (b & <- & Hb). exists b. split; [reflexivity|].
+    rewrite Forall_forall in Hwf. apply Hwf. exact Hb. }
+  assert (forall f, (forall b, simple_wf b -> has_semi (f (member_of b)) = false) ->
+                    split (push_all (map f (map member_of bs))) = [] :: map f (map member_of bs)) as Hsplit.
+  { intros f Hf. apply split_push_all. intros m Hm. destruct (Hms m Hm) as (b & -> & Hb). apply Hf. exact Hb. }
+  destruct k as [|k']; [contradiction|]. cbn [assemble] in Hr.
+  change (match k' with 0 => KMulti | 1 => KComposite | S (S _) => KDirectional end)
+    with (complex_kind (S k')) in Hr.
+  assert (kind_is_complex (complex_kind (S k')) = true) as Hc by (destruct k' as [|[|?]]; reflexivity).
+  remember (complex_kind (S k')) as ck eqn:Eck. clear Eck.
+  injection Hr as <-.
+  unfold csv_row. cbn [norm c_id c_data c_set c_kind c_res c_ann c_dset c_begin c_end c_key c_tdata andb is_empty].
+  (* the kinds *)
+  rewrite <- map_map with (f := m_kind) (g := kind_str).
+  rewrite (join_semi_length_split (kind_str ck) (map kind_str (map m_kind (map member_of bs)))).
+  2:{ intros x [<-|Hx]; [apply kind_str_nosemi|]. apply in_map_iff in Hx. destruct Hx as (kk & <- & _). apply kind_str_nosemi. }
+  change (kind_str ck :: map kind_str (map m_kind (map member_of bs)))
+    with (map kind_str (ck :: map m_kind (map member_of bs))).
+  rewrite kinds_of_map. cbn [bind].
+  rewrite Hc. cbn [negb].
+  assert (is_empty_list (map m_kind (map member_of bs)) = false) as Hne by (destruct bs; [contradiction|reflexivity]).
+  rewrite Hne. cbn [andb].
+  (* the columns *)
+  rewrite !push_all_opt by (destruct bs; [contradiction|discriminate]).
+  cbn [split_opt].
+  rewrite (Hsplit m_res), (Hsplit m_dset), (Hsplit m_ann), (Hsplit m_key), (Hsplit m_tdata), (Hsplit m_begin), (Hsplit m_end)
+    by (intros b Hb; apply (member_of_nosemi b Hb)).
+  rewrite max_len_same.
+  2:{ intros l Hl. cbn [length]. rewrite !map_length.
+      repeat (destruct Hl as [<-|Hl]; [cbn [length]; rewrite !map_length; reflexivity|]). destruct Hl. }
+  cbn [length]. rewrite !map_length. rewrite Nat.sub_succ, Nat.sub_0_r.
+  rewrite (csv_subs_seq _ _ _ _ _ _ _ _ bs 0).
+  - cbn [bind]. eexists. reflexivity.
+  - intros j b Hj. cbn [Nat.add]. apply csv_sub_at; [exact Hj|].
+    rewrite Forall_forall in Hwf. apply Hwf. eapply nth_error_In. exact Hj.
+Qed.
+
+Lemma simple_target_roundtrip idcol dc b r : simple_wf b ->
+  assemble idcol dc 0 [member_of b] = Some r ->
+  exists d, csv_row false (norm r)
+            = Ok {| Loader.ab_id := opt idcol; Loader.ab_data := d; Loader.ab_target := Some b |}.
+Proof.
+  intros Hwf Hr. cbn [assemble] in Hr. injection Hr as <-.
+  assert (forall k, kind_str k = str_of_kind k) as Hk by apply kind_str_eq.
+  eexists.
+  replace (norm _) with (LoaderSpec.row_of_simple idcol [120%N] [121%N] b).
+  - apply csv_simple_roundtrip; [discriminate|reflexivity|reflexivity|exact Hwf].
+  - destruct b as [r cb ce|a [[cb ce]|]|r|s|s k|s d|k l]; cbn [simple_wf] in Hwf; try contradiction; reflexivity.
+Qed.
+
+Lemma assemble_cols idcol dc k ms r : assemble idcol dc k ms = Some r ->
+  c_id r = idcol /\ c_data r = fst dc /\ c_set r = snd dc.
+Proof.
+  unfold assemble. destruct k as [|k'].
+  - destruct ms as [|m [|m' ms]]; try discriminate. intro H. injection H as <-. repeat split.
+  - intro H. injection H as <-. repeat split.
+Qed.
+
+Definition target_of (k : nat) (bs : list Loader.sbuild) : Loader.sbuild :=
+  match k with
+  | 0 => match bs with [b] => b | _ => BComplex KMulti bs end
+  | _ => BComplex (complex_kind k) bs
+  end.
+
+Definition target_wf (k : nat) (bs : list Loader.sbuild) : Prop :=
+  match k with
+  | 0 => exists b, bs = [b] /\ simple_wf b
+  | _ => bs <> [] /\ Forall sub_wf bs
+  end.
+
+(* unpack (pack) at the level of one row: any id, any number of data references, a simple
+   selector of any of the six kinds or a complex selector with any number of members of any mix
+   of kinds, in any alignment *)
+Theorem row_roundtrip idcol ds k bs r : pairs_wf ds -> target_wf k bs ->
+  assemble idcol (data_columns ds) k (map member_of bs) = Some r ->
+  csv_row_now r = Ok {| Loader.ab_id := opt idcol; Loader.ab_data := ds;
+                        Loader.ab_target := Some (target_of k bs) |}.
+Proof.
+  intros Hds Hwf Hr. rewrite csv_row_now_norm.
+  destruct (assemble_cols _ _ _ _ _ Hr) as (_ & Hd & Hs).
+  rewrite (data_of_columns r ds Hds Hd Hs).
+  destruct k as [|k'].
+  - destruct Hwf as (b & -> & Hb). destruct (simple_target_roundtrip _ _ _ _ Hb Hr) as (d & ->). reflexivity.
+  - destruct Hwf as (Hne & Hall).
+    destruct (complex_target_roundtrip _ _ (S k') _ _ (Nat.neq_succ_0 k') Hne Hall Hr) as (d & ->). reflexivity.
+Qed.
+
+(** * From the store to the row: what the writer packs is what the reader unpacks *)
+
+(* the string-level selector a leaf is written as *)
+Definition off_curs (o : option offset) : option (Loader.cursor * Loader.cursor) :=
+  option_map (fun o => (lcur (o_begin o), lcur (o_end o))) o.
+
+Definition leaf_build (s : store) (lf : leaf) : option Loader.sbuild :=
+  match lf with
+  | LText r t m =>
+      match get_res s r with
+      | Some rs =>
+          match nth_error (r_sels rs) t with
+          | Some rg => let o := report_resource (r_len rs) rg (mode_of_nat m) in
+                       Some (BText (name_res (r_id rs)) (lcur (o_begin o)) (lcur (o_end o)))
+          | None => None
+          end
+      | None => None
+      end
+  | LAnn a => match get_ann s a with Some an => Some (BAnn (ann_ident a an) None) | None => None end
+  | LAnnText a r t m =>
+      match get_ann s a, get_res s r with
+      | Some an, Some rs =>
+          match nth_error (r_sels rs) t with
+          | Some rg =>
+              Some (BAnn (ann_ident a an)
+                         (off_curs (match ann_textsel s an with
+                                    | Some (_, _, prg) => relative_offset rg prg (mode_of_nat m)
+                                    | None => None
+                                    end)))
+          | None => None
+          end
+      | _, _ => None
+      end
+  | LRes r => match get_res s r with Some rs => Some (BRes (name_res (r_id rs))) | None => None end
+  | LSet d => match get_set s d with Some ds => Some (BSet (name_set (d_id ds))) | None => None end
+  | LKey d k =>
+      match get_set s d with
+      | Some ds => match slot (d_keys ds) k with
+                   | Some kt => Some (BKey (name_set (d_id ds)) (name_key kt))
+                   | None => None
+                   end
+      | None => None
+      end
+  | LData d x =>
+      match get_set s d with
+      | Some ds => match slot (d_data ds) x with
+                   | Some it => Some (BDat (name_set (d_id ds)) (data_ident x it))
+                   | None => None
+                   end
+      | None => None
+      end
+  end.
+
+Lemma leaf_member_build s lf : leaf_member s lf = option_map member_of (leaf_build s lf).
+Proof.
+  destruct lf as [r t m|a|a r t m|r|d|d k|d x]; cbn [leaf_member leaf_build].
+  - destruct (get_res s r) as [rs|]; [|reflexivity]. destruct (nth_error (r_sels rs) t); reflexivity.
+  - destruct (get_ann s a); reflexivity.
+  - destruct (get_ann s a) as [an|]; [|reflexivity]. destruct (get_res s r) as [rs|]; [|reflexivity].
+    destruct (nth_error (r_sels rs) t) as [rg|]; [|reflexivity]. cbn [option_map]. f_equal.
+    destruct (match ann_textsel s an with Some (_, _, prg) => relative_offset rg prg (mode_of_nat m) | None => None end)
+      as [o|]; reflexivity.
+  - destruct (get_res s r); reflexivity.
+  - destruct (get_set s d); reflexivity.
+  - destruct (get_set s d) as [ds|]; [|reflexivity]. destruct (slot (d_keys ds) k); reflexivity.
+  - destruct (get_set s d) as [ds|]; [|reflexivity]. destruct (slot (d_data ds) x); reflexivity.
+Qed.
+
+Lemma map_opt_map {A B C} (f : A -> option B) (g : B -> C) l :
+  map_opt (fun x => option_map g (f x)) l = option_map (map g) (map_opt f l).
+Proof.
+  induction l as [|x l IH]; [reflexivity|]. cbn [map_opt]. rewrite IH.
+  destruct (f x); [|reflexivity]. destruct (map_opt f l); reflexivity.
+Qed.
+
+Lemma map_opt_ext {A B} (f g : A -> option B) l : (forall x, f x = g x) -> map_opt f l = map_opt g l.
+Proof. intro H. induction l as [|x l IH]; [reflexivity|]. cbn [map_opt]. rewrite H, IH. reflexivity. Qed.
+
+Lemma map_opt_In {A B} (f : A -> option B) l l' : map_opt f l = Some l' ->
+  forall y, In y l' -> exists x, In x l /\ f x = Some y.
+Proof.
+  revert l'. induction l as [|x l IH]; intros l' H y Hy.
+  - injection H as <-. destruct Hy.
+  - cbn [map_opt] in H. destruct (f x) as [y0|] eqn:E; [|discriminate].
+    destruct (map_opt f l) as [ys|]; [|discriminate]. injection H as <-.
+    destruct Hy as [<-|Hy].
+    + exists x. split; [left; reflexivity|exact E].
+    + destruct (IH ys eq_refl y Hy) as (x' & Hx' & Ex'). exists x'. split; [right; exact Hx'|exact Ex'].
+Qed.
+
+(* names are free of ';' and not empty *)
+Lemma nat_dec_nosemi n : has_semi (nat_dec n) = false.
+Proof. apply dec_nosemi. Qed.
+
+Lemma name_nosemi c n : (c =? 59)%N = false -> has_semi (c :: nat_dec n) = false.
+Proof. intro H. cbn [has_semi existsb]. rewrite H. apply nat_dec_nosemi. Qed.
+
+Lemma name_set_ok t : has_semi (name_set t) = false /\ name_set t <> [].
+Proof.
+  unfold name_set. destruct (Nat.eqb t DEFAULT_SET_TOKEN).
+  - split; [reflexivity|discriminate].
+  - split; [apply name_nosemi; reflexivity|discriminate].
+Qed.
+
+Lemma data_ident_ok x it : has_semi (data_ident x it) = false /\ data_ident x it <> [].
+Proof.
+  unfold data_ident, name_data, temp_name. destruct (x_id it).
+  - split; [apply name_nosemi; reflexivity|discriminate].
+  - split; [|discriminate]. cbn [has_semi existsb]. change (33 =? 59)%N with false. cbn [orb].
+    apply name_nosemi. reflexivity.
+Qed.
+
+Lemma ann_ident_ok h a : has_semi (ann_ident h a) = false /\ ann_ident h a <> [].
+Proof.
+  unfold ann_ident, name_ann, temp_name. destruct (a_id a).
+  - split; [apply name_nosemi; reflexivity|discriminate].
+  - split; [|discriminate]. cbn [has_semi existsb]. change (33 =? 59)%N with false. cbn [orb].
+    apply name_nosemi. reflexivity.
+Qed.
+
+Lemma data_names_wf s a ds : data_names s a = Some ds -> pairs_wf ds.
+Proof.
+  unfold data_names. intros H p Hp.
+  destruct (map_opt_In _ _ _ H p Hp) as (dx & _ & E).
+  destruct (get_set s (fst dx)) as [dst|]; [|discriminate].
+  destruct (slot (d_data dst) (snd dx)) as [it|]; [|discriminate]. injection E as <-.
+  cbn [fst snd]. destruct (name_set_ok (d_id dst)) as [H1 _]. destruct (data_ident_ok (snd dx) it) as [H2 H3].
+  repeat split; assumption.
+Qed.
+
+(* the cursors the writer reports are within the range of the integer types *)
+Lemma report_cursors_wf len b e m : b <= e -> e <= len -> fits len = true ->
+  Proofs.Loader.cursor_wf (lcur (o_begin (report_resource len (b, e) m)))
+  /\ Proofs.Loader.cursor_wf (lcur (o_end (report_resource len (b, e) m))).
+Proof.
+  intros H1 H2 H3. unfold fits in H3. apply N.leb_le in H3. unfold isize_max in H3.
+  destruct m; cbn [report_resource o_begin o_end lcur Proofs.Loader.cursor_wf];
+    unfold usize_max, isize_min_abs; split; lia.
+Qed.
+
+Lemma relative_cursors_wf pb pe b e m off len : pb <= b -> b <= e -> e <= pe -> pe <= len -> fits len = true ->
+  relative_offset (b, e) (pb, pe) m = Some off ->
+  Proofs.Loader.cursor_wf (lcur (o_begin off)) /\ Proofs.Loader.cursor_wf (lcur (o_end off)).
+Proof.
+  intros H1 H2 H3 H4 H5 H. unfold fits in H5. apply N.leb_le in H5. unfold isize_max in H5.
+  unfold relative_offset, relative_begin, relative_end, relative_begin_endaligned, relative_end_endaligned in H.
+  cbn [fst snd] in H.
+  destruct m; repeat (match type of H with context [if ?c then _ else _] => destruct c end); try discriminate;
+    injection H as <-; cbn [o_begin o_end lcur Proofs.Loader.cursor_wf]; unfold usize_max, isize_min_abs; split; lia.
+Qed.
+
+Lemma slot_lt {X} (l : list (option X)) h x : slot l h = Some x -> h < length l.
+Proof.
+  unfold slot. intro H. destruct (Nat.lt_ge_cases h (length l)) as [|Hge]; [assumption|].
+  rewrite nth_overflow in H by exact Hge. discriminate.
+Qed.
+
+Lemma live_items_In {X} (l : list (option X)) h x : In (h, x) (live_items l) <-> slot l h = Some x.
+Proof.
+  unfold live_items. rewrite in_flat_map. split.
+  - intros (h' & _ & H). destruct (slot l h') as [x'|] eqn:E; [|destruct H].
+    destruct H as [H|[]]. injection H as <- <-. exact E.
+  - intro H. exists h. split; [apply in_seq; split; [lia|apply (slot_lt _ _ _ H)]|].
+    rewrite H. left. reflexivity.
+Qed.
+
+Lemma ann_textsel_sound s an r t prg : ann_textsel s an = Some (r, t, prg) ->
+  exists rs, get_res s r = Some rs /\ nth_error (r_sels rs) t = Some prg.
+Proof.
+  unfold ann_textsel. destruct (a_kind an); [|discriminate].
+  destruct (a_leaves an) as [|lf [|lf' l]]; try discriminate; [|destruct lf; discriminate].
+  destruct lf as [r0 t0 m0|a0|a0 r0 t0 m0|r0|d0|d0 k0|d0 x0]; try discriminate.
+  - destruct (get_res s r0) as [rs|] eqn:E; [|discriminate].
+    destruct (nth_error (r_sels rs) t0) as [rg|] eqn:E2; [|discriminate].
+    intro H. injection H as <- <- <-. exists rs. split; assumption.
+  - destruct (get_res s r0) as [rs|] eqn:E; [|discriminate].
+    destruct (nth_error (r_sels rs) t0) as [rg|] eqn:E2; [|discriminate].
+    intro H. injection H as <- <- <-. exists rs. split; assumption.
+Qed.
+
+Lemma store_ok_res s r rs : store_ok s = true -> get_res s r = Some rs ->
+  fits (r_len rs) = true /\ forall rg, In rg (r_sels rs) -> fst rg <= snd rg /\ snd rg <= r_len rs.
+Proof.
+  unfold store_ok. intros H Hr. apply andb_prop in H. destruct H as [H _].
+  rewrite forallb_forall in H. specialize (H (r, rs)). cbn [snd] in H.
+  assert (res_ok rs = true) as Hok by (apply H; apply live_items_In; exact Hr).
+  unfold res_ok in Hok. apply andb_prop in Hok. destruct Hok as [Hf Hs]. split; [exact Hf|].
+  intros rg Hrg. rewrite forallb_forall in Hs. specialize (Hs rg Hrg). unfold range_ok in Hs.
+  apply andb_prop in Hs. destruct Hs as [H1 H2]. apply Nat.leb_le in H1, H2. split; assumption.
+Qed.
+
+(* every leaf of a live annotation of a well-formed store is written as a well-formed selector *)
+Lemma leaf_build_wf s h a lf b : store_ok s = true -> get_ann s h = Some a -> In lf (a_leaves a) ->
+  leaf_build s lf = Some b -> sub_wf b.
+Proof.
+  intros Hok Ha Hlf Hb.
+  destruct lf as [r t m|a0|a0 r t m|r|d|d k|d x]; cbn [leaf_build] in Hb.
+  - destruct (get_res s r) as [rs|] eqn:Er; [|discriminate].
+    destruct (nth_error (r_sels rs) t) as [[b0 e0]|] eqn:Et; [|discriminate]. injection Hb as <-.
+    destruct (store_ok_res s r rs Hok Er) as [Hf Hs].
+    destruct (Hs (b0, e0) (nth_error_In _ _ Et)) as [H1 H2]. cbn [fst snd] in H1, H2.
+    destruct (report_cursors_wf (r_len rs) b0 e0 (mode_of_nat m) H1 H2 Hf) as [Hc1 Hc2].
+    split; [|discriminate]. cbn [simple_wf]. repeat split; try assumption. apply name_nosemi. reflexivity.
+  - destruct (get_ann s a0) as [an|]; [|discriminate]. injection Hb as <-.
+    destruct (ann_ident_ok a0 an) as [H1 H2]. split; [exact H1|exact H2].
+  - destruct (get_ann s a0) as [an|] eqn:Ea; [|discriminate].
+    destruct (get_res s r) as [rs|] eqn:Er; [|discriminate].
+    destruct (nth_error (r_sels rs) t) as [[b0 e0]|] eqn:Et; [|discriminate]. injection Hb as <-.
+    destruct (ann_ident_ok a0 an) as [H1 H2].
+    (* the well-formedness of this leaf *)
+    assert (leaf_ok s (LAnnText a0 r t m) = true) as Hl.
+    { unfold store_ok in Hok. apply andb_prop in Hok. destruct Hok as [_ Hok].
+      rewrite forallb_forall in Hok. specialize (Hok (h, a)). cbn [snd] in Hok.
+      assert (forallb (leaf_ok s) (a_leaves a) = true) as Hall by (apply Hok; apply live_items_In; exact Ha).
+      rewrite forallb_forall in Hall. apply Hall. exact Hlf. }
+    cbn [leaf_ok] in Hl. rewrite Ea in Hl.
+    destruct (ann_textsel s an) as [[[r' t'] [pb pe]]|] eqn:Ep; [|discriminate].
+    unfold sel_range in Hl. rewrite Er in Hl. rewrite (nth_error_nth _ _ (0, 0) Et) in Hl. cbn [fst snd] in Hl.
+    apply andb_prop in Hl. destruct Hl as [Hl H5]. apply andb_prop in Hl. destruct Hl as [H3 H4].
+    apply Nat.eqb_eq in H3. subst r'. apply Nat.leb_le in H4, H5.
+    destruct (ann_textsel_sound _ _ _ _ _ Ep) as (rs' & Er' & Et'). rewrite Er in Er'. injection Er' as <-.
+    destruct (store_ok_res s r rs Hok Er) as [Hf Hs].
+    destruct (Hs (b0, e0) (nth_error_In _ _ Et)) as [H6 H7]. cbn [fst snd] in H6, H7.
+    destruct (Hs (pb, pe) (nth_error_In _ _ Et')) as [H8 H9]. cbn [fst snd] in H8, H9.
+    destruct (relative_offset (b0, e0) (pb, pe) (mode_of_nat m)) as [off|] eqn:Eo; cbn [off_curs option_map].
+    + destruct (relative_cursors_wf pb pe b0 e0 (mode_of_nat m) off (r_len rs) H4 H6 H5 H9 Hf Eo) as [Hc1 Hc2].
+      split; [|exact H2]. cbn [simple_wf]. repeat split; assumption.
+    + split; [exact H1|exact H2].
+  - destruct (get_res s r) as [rs|]; [|discriminate]. injection Hb as <-.
+    split; [apply name_nosemi; reflexivity|discriminate].
+  - destruct (get_set s d) as [dst|]; [|discriminate]. injection Hb as <-.
+    destruct (name_set_ok (d_id dst)) as [H1 H2]. split; [exact H1|exact H2].
+  - destruct (get_set s d) as [dst|]; [|discriminate]. destruct (slot (d_keys dst) k) as [kt|]; [|discriminate].
+    injection Hb as <-. destruct (name_set_ok (d_id dst)) as [H1 H2].
+    split; [|exact H2]. cbn [simple_wf]. repeat split; [exact H1|apply name_nosemi; reflexivity|discriminate].
+  - destruct (get_set s d) as [dst|]; [|discriminate]. destruct (slot (d_data dst) x) as [it|]; [|discriminate].
+    injection Hb as <-. destruct (name_set_ok (d_id dst)) as [H1 H2]. destruct (data_ident_ok x it) as [H3 H4].
+    split; [|exact H2]. cbn [simple_wf]. repeat split; assumption.
+Qed.
+
+Lemma map_opt_length {A B} (f : A -> option B) l l' : map_opt f l = Some l' -> length l' = length l.
+Proof.
+  revert l'. induction l as [|x l IH]; intros l' H.
+  - injection H as <-. reflexivity.
+  - cbn [map_opt] in H. destruct (f x); [|discriminate]. destruct (map_opt f l) as [ys|]; [|discriminate].
+    injection H as <-. cbn [length]. f_equal. apply IH. reflexivity.
+Qed.
+
+(* unpack (pack s a) = Ok builder, for every live annotation of a well-formed store: the builder
+   names exactly the annotation's id column, its data and, leaf by leaf, its target *)
+Theorem pack_row_decodes s h a r : store_ok s = true -> get_ann s h = Some a ->
+  (a_kind a <> 0 -> a_leaves a <> []) -> pack_row s h a = Some r ->
+  exists bs ds, map_opt (leaf_build s) (a_leaves a) = Some bs /\ data_names s a = Some ds /\
+    csv_row_now r = Ok {| Loader.ab_id := opt (id_column h a); Loader.ab_data := ds;
+                          Loader.ab_target := Some (target_of (a_kind a) bs) |}.
+Proof.
+  intros Hok Ha Hk Hr. unfold pack_row in Hr.
+  rewrite (map_opt_ext _ _ _ (leaf_member_build s)) in Hr. rewrite map_opt_map in Hr.
+  destruct (map_opt (leaf_build s) (a_leaves a)) as [bs|] eqn:Ebs; [|discriminate]. cbn [option_map] in Hr.
+  destruct (data_names s a) as [ds|] eqn:Eds; [|discriminate].
+  exists bs, ds. split; [reflexivity|]. split; [reflexivity|].
+  assert (forall b, In b bs -> sub_wf b) as Hwf.
+  { intros b Hb. destruct (map_opt_In _ _ _ Ebs b Hb) as (lf & Hlf & E).
+    apply (leaf_build_wf s h a lf b Hok Ha Hlf E). }
+  apply row_roundtrip; [apply (data_names_wf s a); exact Eds| |exact Hr].
+  destruct (a_kind a) as [|k'] eqn:Ek.
+  - cbn [target_wf]. cbn [assemble] in Hr. destruct bs as [|b [|b' bs]]; try discriminate.
+    exists b. split; [reflexivity|]. apply (Hwf b). left. reflexivity.
+  - cbn [target_wf]. split.
+    + intros ->. apply map_opt_length in Ebs. cbn [length] in Ebs.
+      destruct (a_leaves a); [apply Hk; [discriminate|reflexivity]|discriminate].
+    + apply Forall_forall. exact Hwf.
+Qed.
+
+(** * Offsets: written in any of the four alignments, read back, resolved: the same range *)
+
+Lemma ocur_lcur c : ocur (lcur c) = c.
+Proof. destruct c as [n|z]; cbn [lcur ocur]; [rewrite Nat2N.id|]; reflexivity. Qed.
+
+(* a TextSelector: the cursors the writer prints for the range [b,e) of a resource of len
+   codepoints in mode m are parsed back, and resolve on a resource of that length to [b,e) *)
+Theorem offset_text_roundtrip len b e m : b <= e -> e <= len -> fits len = true ->
+  exists cb ce,
+    cursor_pair (fst (off_strs (Some (report_resource len (b, e) m))))
+                (snd (off_strs (Some (report_resource len (b, e) m)))) = Ok (cb, ce)
+    /\ resource_ts len (mkoff (ocur cb) (ocur ce)) = Offset.Ok (b, e).
+Proof.
+  intros H1 H2 H3.
+  destruct (report_cursors_wf len b e m H1 H2 H3) as [Hb He].
+  exists (lcur (o_begin (report_resource len (b, e) m))), (lcur (o_end (report_resource len (b, e) m))).
+  split.
+  - cbn [off_strs fst snd]. apply cursor_pair_roundtrip; assumption.
+  - rewrite !ocur_lcur.
+    destruct (Proofs.Offset.report_resource_spec len b e m H1 H2) as (E & _ & _ & _ & R).
+    rewrite E. destruct (OffsetSpec.spec_report len b e m) as [c1 c2]. exact R.
+Qed.
+
+(* an AnnotationSelector with offset: relative to the selection [pb,pe) of the target annotation *)
+Theorem offset_relative_roundtrip pb pe b e m len : pb <= b -> b <= e -> e <= pe -> pe <= len -> fits len = true ->
+  exists off cb ce,
+    relative_offset (b, e) (pb, pe) m = Some off
+    /\ cursor_pair (fst (off_strs (Some off))) (snd (off_strs (Some off))) = Ok (cb, ce)
+    /\ selection_ts (pb, pe) (mkoff (ocur cb) (ocur ce)) = Offset.Ok (b, e).
+Proof.
+  intros H1 H2 H3 H4 H5.
+  destruct (Proofs.Offset.relative_offset_spec pb pe b e m H1 H2 H3) as (E & _ & _ & _ & R). cbv zeta in E, R.
+  destruct (relative_cursors_wf pb pe b e m _ len H1 H2 H3 H4 H5 E) as [Hb He].
+  eexists _, _, _. split; [exact E|]. split.
+  - cbn [off_strs fst snd]. apply cursor_pair_roundtrip; assumption.
+  - rewrite !ocur_lcur. destruct (OffsetSpec.spec_report (pe - pb) (b - pb) (e - pb) m) as [c1 c2]. exact R.
+Qed.
+
+(** * Names: the identifiers the writer prints are read back as the same token / handle *)
+
+Lemma str_eqb_refl s : str_eqb s s = true.
+Proof. induction s as [|c s IH]; [reflexivity|]. cbn [str_eqb]. rewrite N.eqb_refl, IH. reflexivity. Qed.
+
+Definition tok_fits (t : nat) : Prop := (N.of_nat t <= usize_max)%N.
+
+Lemma parse_tok_name c t : tok_fits t -> parse_tok c (c :: nat_dec t) = Some t.
+Proof.
+  intro H. unfold parse_tok, nat_dec. rewrite N.eqb_refl.
+  destruct (dec_head_digit (N.of_nat t)) as (c0 & r & E & _).
+  destruct (dec (N.of_nat t)) as [|c1 r1] eqn:E1; [discriminate|]. rewrite <- E1.
+  rewrite digits_val_spec by (unfold usize_max; lia).
+  unfold dec at 1. rewrite dec_fuel_digits. cbn [andb]. rewrite dec_eval.
+  destruct (N.leb_spec (N.of_nat t) usize_max) as [_|Hgt]; [|unfold tok_fits in H; lia].
+  rewrite str_eqb_refl, Nat2N.id. reflexivity.
+Qed.
+
+Lemma temp_handle_plain letter c s : (c =? 33)%N = false -> temp_handle_of letter (c :: s) = None.
+Proof. intro H. unfold temp_handle_of. destruct s; [reflexivity|]. rewrite H. reflexivity. Qed.
+
+Lemma temp_handle_temp letter h : tok_fits h -> temp_handle_of letter (temp_name letter h) = Some h.
+Proof.
+  intro H. unfold temp_handle_of, temp_name, nat_dec. rewrite !N.eqb_refl. cbn [andb].
+  rewrite parse_usize_dec by exact H. cbn [option_map]. rewrite Nat2N.id. reflexivity.
+Qed.
+
+(* an ordinary id is read as that id, a temporary id as the handle it names *)
+Theorem ref_of_plain_name plain temp t : (plain =? 33)%N = false -> tok_fits t ->
+  ref_of_name plain temp (plain :: nat_dec t) = Some (ById t).
+Proof.
+  intros Hp Ht. unfold ref_of_name. rewrite temp_handle_plain by exact Hp. rewrite parse_tok_name by exact Ht. reflexivity.
+Qed.
+
+Theorem ref_of_temp_name plain temp h : tok_fits h -> ref_of_name plain temp (temp_name temp h) = Some (ByHandle h).
+Proof. intro H. unfold ref_of_name. rewrite temp_handle_temp by exact H. reflexivity. Qed.
+
+Theorem set_ref_of_name_set t : tok_fits t -> set_ref_of_name (name_set t) = Some (ById t).
+Proof.
+  intro H. unfold set_ref_of_name, name_set. destruct (Nat.eqb_spec t DEFAULT_SET_TOKEN) as [->|Hne].
+  - rewrite str_eqb_refl. reflexivity.
+  - change (str_eqb (115%N :: nat_dec t) DEFAULT_SET_NAME) with false.
+    rewrite temp_handle_plain by reflexivity. rewrite parse_tok_name by exact H. reflexivity.
+Qed.
+
+(* the public id an item is stored under after loading: its own, or - the known finding - the
+   literal temporary id *)
+Theorem own_tok_plain plain temp t : (plain =? 33)%N = false -> tok_fits t ->
+  own_tok plain temp (plain :: nat_dec t) = Some t.
+Proof.
+  intros Hp Ht. unfold own_tok. rewrite temp_handle_plain by exact Hp. apply parse_tok_name. exact Ht.
+Qed.
+Theorem own_tok_temp plain temp h : tok_fits h -> own_tok plain temp (temp_name temp h) = Some (TEMP_BASE + h).
+Proof. intro H. unfold own_tok. rewrite temp_handle_temp by exact H. reflexivity. Qed.
+
+(** * Witnesses *)
+
+(* the full property on a store with every selector kind, alignment and a removal *)
+Definition demo_ops : list op :=
+  [ AddRes 0 7; AddRes 1 0; AddSet 0; AddSet 1;
+    Annotate (mkab (Some 0) (Some (Store.BText (ById 0) (mkoff (CB 1) (CE (-1)%Z))))
+                   [mkdb (ById 0) (Some (ById 0)) (Some (ById 0)) (VInt 3)]);
+    Annotate (mkab (Some 1) (Some (Store.BRes (ById 1))) []);
+    Annotate (mkab (Some 2) (Some (Store.BAnn (ById 0) (Some (mkoff (CE (-3)%Z) (CE 0%Z)))))
+                   [mkdb (ById 0) (Some (ById 1)) (Some (ById 1)) (VList [VInt 1; VStr [97%N]]);
+                    mkdb (ById 1) (Some (ById 2)) (Some (ById 0)) (VFix (-1500)%Z)]);
+    Annotate (mkab (Some 3) (Some (Store.BRes (ById 0))) []);
+    RmAnn (ById 3);
+    Annotate (mkab (Some 4) (Some (Store.BComplex 2
+                 [Store.BText (ById 0) (mkoff (CB 0) (CB 1)); Store.BText (ById 0) (mkoff (CB 1) (CB 2));
+                  Store.BAnn (ById 2) (Some (mkoff (CB 0) (CE (-1)%Z))); Store.BAnn (ById 1) None;
+                  Store.BKey (ById 0) (ById 1); Store.BData (ById 1) (ById 2); Store.BSet (ById 1);
+                  Store.BRes (ById 1)])) [mkdb (ById 0) (Some (ById 0)) None VNull]);
+    Annotate (mkab (Some 5) (Some (Store.BComplex 3 [Store.BAnn (ById 4) None; Store.BAnn (ById 0) None])) []) ].
+
+Lemma demo_roundtrip :
+  known_class (run demo_ops) = 0 /\ store_ok (run demo_ops) = true
+  /\ sx_of_loaded (roundtrip (run demo_ops)) = roundtrip_spec (run demo_ops)
+  /\ length (live_items (anns (run demo_ops))) = 5.
+Proof. vm_compute. repeat split. Qed.
+
+(* items without public id: the loaded annotation carries the literal id "!A0" *)
+Definition tempid_ops : list op :=
+  [ AddRes 0 3; Annotate (mkab None (Some (Store.BRes (ById 0))) []) ].
+(* ... and with a gap before it a reference to it no longer resolves: the load fails *)
+Definition tempid_gap_ops : list op :=
+  [ AddRes 0 3;
+    Annotate (mkab (Some 0) (Some (Store.BRes (ById 0))) []);
+    Annotate (mkab None (Some (Store.BRes (ById 0))) []);
+    Annotate (mkab (Some 2) (Some (Store.BAnn (ByHandle 1) None)) []);
+    RmAnn (ById 0) ].
+
+Lemma Known_C15_tempid_witness :
+  Known_C15_tempid (run tempid_ops) = true
+  /\ sx_of_loaded (roundtrip (run tempid_ops)) <> roundtrip_spec (run tempid_ops)
+  /\ Known_C15_tempid (run tempid_gap_ops) = true
+  /\ roundtrip (run tempid_gap_ops) = LErr.
+Proof. vm_compute. repeat split; discriminate. Qed.
+
+Definition empty_complex_ops : list op :=
+  [ AddRes 0 3; Annotate (mkab (Some 0) (Some (Store.BComplex 1 [])) []) ].
+
+Lemma Known_C15_empty_complex_witness :
+  Known_C15_empty_complex (run empty_complex_ops) = true
+  /\ length (live_items (anns (run empty_complex_ops))) = 1
+  /\ roundtrip (run empty_complex_ops) = LErr.
+Proof. vm_compute. repeat split. Qed.
